@@ -177,7 +177,7 @@ isite('g_tcm_reset', ': N', aggr, 'aggregator.rs', 'TCMaker', 'append', r'self\.
 isite('g_leader_index', '(round size : N) : N', lead, 'leader.rs', 'RRLeaderElector', 'get_leader', r'keys\[\s*(.*?)\s*\]', {'round': 'round', 'SIZE': 'size'}, '(round mod size)', pre=lambda t: t.replace(' as usize', '').replace('self.committee.size()', 'SIZE'))
 isite('g_qw_threshold', '(total quorum : N) : bool', qwsrc, 'quorum_waiter.rs', 'QuorumWaiter', 'run', r'if\s+(total_stake[^{]*?)\s*\{', {'total_stake': 'total', 'QUORUM': 'quorum'}, '(quorum <=? total)', pre=lambda t: t.replace('self.committee.quorum_threshold()', 'QUORUM'))
 isite('g_batch_full', '(size batch_size : N) : bool', bmsrc, 'batch_maker.rs', 'BatchMaker', 'run', r'if\s+(self\.current_batch_size[^{]*?)\s*\{', {'self.current_batch_size': 'size', 'self.batch_size': 'batch_size'}, '(batch_size <=? size)')
-isite('g_timer_seals', '(is_empty : bool) : bool', bmsrc, 'batch_maker.rs', 'BatchMaker', 'run', r'=>\s*\{\s*if\s+(!?self\.current_batch\.is_empty\(\))\s*\{', {'EMPTY': 'is_empty'}, '(negb is_empty)', pre=lambda t: t.replace('self.current_batch.is_empty()', 'EMPTY'))
+isite('g_timer_seals', '(is_empty : bool) (size batch_size : N) : bool', bmsrc, 'batch_maker.rs', 'BatchMaker', 'run', r'\(\)\s*=\s*&mut\s+timer\s*=>\s*\{\s*if\s+([^{}]*?)\s*\{', {'EMPTY': 'is_empty', 'self.current_batch_size': 'size', 'self.batch_size': 'batch_size'}, '(negb is_empty)', pre=lambda t: t.replace('self.current_batch.is_empty()', 'EMPTY'))
 # seal(): is the length test evaluated before the index `tx[0]` (benchmark build)? `a && b` evaluates a first
 _sb, _sl = fn_body(bmsrc, 'seal')
 _mf = re.search(r'\.filter\(\|tx\|\s*(.*?)\)\s*\.filter_map', _sb or '', re.S)
@@ -319,5 +319,37 @@ def panic_inventory():
             if not irrefutable:
                 inv['%s::%s::select! without else' % (rel, fnm[-1] if fnm else '?')] = 1
     return inv
-if STATUS: json.dump({'sites': sites, 'untied': untied, 'rewritten': new != old, 'panic_inventory': panic_inventory()}, open(STATUS,'w'), indent=1)
+# ---- anchors: a normalised token hash of every function of the modelled files (drift only raises the correspondence budget) ----
+import hashlib
+def anchors():
+    out = {}
+    for f in sorted(glob.glob(REPO + '/*/src/*.rs')):
+        rel = os.path.relpath(f, REPO)
+        if rel.startswith('node/src/client') or rel.startswith('node/src/main'): continue
+        src = strip_comments(open(f).read())
+        for m in re.finditer(r'\bfn\s+([A-Za-z_0-9]+)\s*(<[^>]*>)?\s*\(', src):
+            name = m.group(1)
+            if name.startswith('verif_'): continue
+            try:
+                i = src.index('{', m.end())
+            except ValueError:
+                continue
+            if ';' in src[m.end():i]: continue        # a declaration without body
+            depth, j = 0, i
+            while j < len(src):
+                if src[j] == '{': depth += 1
+                elif src[j] == '}':
+                    depth -= 1
+                    if depth == 0: break
+                j += 1
+            body = src[i:j + 1]
+            body = re.sub(r'"(?:[^"\\\\]|\\\\.)*"', '""', body)                    # string literals (log texts) do not matter
+            body = re.sub(r'\b(debug|info|warn|error)!\s*\([^;]*\);', '', body)  # nor do log statements
+            body = re.sub(r'\s+', '', body)
+            key = '%s::%s' % (rel, name)
+            n = 2
+            while key in out: key = '%s::%s#%d' % (rel, name, n); n += 1
+            out[key] = hashlib.sha1(body.encode()).hexdigest()[:16]
+    return out
+if STATUS: json.dump({'sites': sites, 'untied': untied, 'rewritten': new != old, 'panic_inventory': panic_inventory(), 'anchors': anchors()}, open(STATUS,'w'), indent=1)
 print("sites=%d untied=%s" % (len(defs), untied))
